@@ -81,6 +81,16 @@ func descN(v ssa.Value, depth int, seen map[ssa.Value]bool) string {
 	case *ssa.FieldAddr:
 		return d(v.X) + ".&" + fieldName(v.X.Type(), v.Field)
 	case *ssa.Field:
+		// field of a whole-value load of a small key literal built in this function: the value it was built with
+		if ld, ok := v.X.(*ssa.UnOp); ok && ld.Op == token.MUL {
+			if a, ok := ld.X.(*ssa.Alloc); ok && (a.Comment == "complit" || a.Comment == "new" || a.Comment == "") && !a.Heap {
+				if st, ok := deref(a.Type()).Underlying().(*types.Struct); ok && st.NumFields() <= 3 && unexportedNamed(deref(a.Type())) {
+					if vals := LiteralFields(a)[fieldName(v.X.Type(), v.Field)]; len(vals) == 1 && onlyFieldUses(a) {
+						return d(vals[0])
+					}
+				}
+			}
+		}
 		return d(v.X) + "." + fieldName(v.X.Type(), v.Field)
 	case *ssa.IndexAddr:
 		return d(v.X) + ".&[" + d(v.Index) + "]"
@@ -115,6 +125,9 @@ func descN(v ssa.Value, depth int, seen map[ssa.Value]bool) string {
 				}
 				if a, ok := fa.X.(*ssa.Alloc); ok && a.Comment != "complit" && a.Comment != "new" {
 					if sv := SingleStore(a, v); sv != nil {
+						if kv := keyLitField(sv, fieldName(fa.X.Type(), fa.Field)); kv != nil {
+							return d(kv)
+						}
 						return d(sv) + "." + fieldName(fa.X.Type(), fa.Field)
 					}
 				}
@@ -407,6 +420,35 @@ func LiteralFields(a ssa.Value) map[string][]ssa.Value {
 		}
 	}
 	return out
+}
+
+// keyLitField: x is a struct value loaded from a small key literal built in this function (possibly through
+// single-assignment locals): the value the literal's field was built with, else nil.
+func keyLitField(x ssa.Value, field string) ssa.Value {
+	for i := 0; i < 4; i++ {
+		ld, ok := x.(*ssa.UnOp)
+		if !ok || ld.Op != token.MUL {
+			return nil
+		}
+		a, ok := ld.X.(*ssa.Alloc)
+		if !ok {
+			return nil
+		}
+		if a.Comment == "complit" || a.Comment == "new" || a.Comment == "" {
+			if st, ok := deref(a.Type()).Underlying().(*types.Struct); ok && st.NumFields() <= 3 && unexportedNamed(deref(a.Type())) {
+				if vals := LiteralFields(a)[field]; len(vals) == 1 && onlyFieldUses(a) {
+					return vals[0]
+				}
+			}
+			return nil
+		}
+		sv := SingleStore(a, ld)
+		if sv == nil {
+			return nil
+		}
+		x = sv
+	}
+	return nil
 }
 
 // onlyFieldUses: the allocation is used only through field addresses (stored to once each, see LiteralFields) and
@@ -704,7 +746,7 @@ func NamedLocals(fn *ssa.Function) []*ssa.Alloc {
 		for _, in := range b.Instrs {
 			if a, ok := in.(*ssa.Alloc); ok {
 				c := a.Comment
-				if c == "complit" || c == "new" || c == "" || strings.HasSuffix(c, "slicelit") || c == "varargs" || c == "makeslice" {
+				if c == "complit" || c == "new" || c == "" || strings.HasSuffix(c, "slicelit") || c == "varargs" || c == "makeslice" || strings.HasPrefix(c, "_inl") {
 					continue
 				}
 				out = append(out, a)
@@ -714,14 +756,60 @@ func NamedLocals(fn *ssa.Function) []*ssa.Alloc {
 	return out
 }
 
+// canonMap maps the current names (in order) onto the frozen names: a name that is still present keeps itself
+// (so reordering — captured variables are numbered by first use, locals by allocation order — changes nothing);
+// the names that disappeared were renamed and are matched, in order, with the frozen names that are no longer
+// present. Different counts: no mapping (current names are used).
+func canonMap(cur, frozen []string) []string {
+	if len(cur) != len(frozen) {
+		return nil
+	}
+	count := func(xs []string) map[string]int {
+		m := map[string]int{}
+		for _, x := range xs {
+			m[x]++
+		}
+		return m
+	}
+	cc, fc := count(cur), count(frozen)
+	var freeFrozen []string
+	for _, f := range frozen {
+		if cc[f] > 0 {
+			cc[f]--
+			continue
+		}
+		freeFrozen = append(freeFrozen, f)
+	}
+	out := make([]string, len(cur))
+	k := 0
+	for i, c := range cur {
+		if fc[c] > 0 {
+			fc[c]--
+			out[i] = c
+			continue
+		}
+		if k < len(freeFrozen) {
+			out[i] = freeFrozen[k]
+			k++
+		} else {
+			out[i] = c
+		}
+	}
+	return out
+}
+
 func canonLocal(a *ssa.Alloc) string {
 	fn := a.Parent()
 	if cn, ok := Canon[ShortName(fn)]; ok && len(cn.Locals) > 0 {
 		ls := NamedLocals(fn)
-		if len(ls) == len(cn.Locals) {
+		cur := make([]string, len(ls))
+		for i, q := range ls {
+			cur[i] = q.Comment
+		}
+		if m := canonMap(cur, cn.Locals); m != nil {
 			for i, q := range ls {
 				if q == a {
-					return cn.Locals[i]
+					return m[i]
 				}
 			}
 		}
@@ -743,10 +831,16 @@ func canonParam(p *ssa.Parameter) string {
 
 func canonFreeVar(v *ssa.FreeVar) string {
 	fn := v.Parent()
-	if cn, ok := Canon[ShortName(fn)]; ok && len(cn.FreeVars) == len(fn.FreeVars) {
+	if cn, ok := Canon[ShortName(fn)]; ok {
+		cur := make([]string, len(fn.FreeVars))
 		for i, q := range fn.FreeVars {
-			if q == v {
-				return cn.FreeVars[i]
+			cur[i] = q.Name()
+		}
+		if m := canonMap(cur, cn.FreeVars); m != nil {
+			for i, q := range fn.FreeVars {
+				if q == v {
+					return m[i]
+				}
 			}
 		}
 	}
